@@ -144,6 +144,20 @@ def c13_oracle(case, obs):
     return out
 
 
+def orphan_linger(r):
+    """The known class: a socket the application has dropped, not aborted, with nothing in flight and nothing it
+    could still do by itself: FIN_WAIT2 (our FIN is acknowledged, the peer's never came), or our FIN (and possibly
+    data) still unsent behind a zero window.  A socket whose FIN has been sent AND acknowledged is in FinWait2 or
+    Closed - anything else (e.g. Closing with the FIN acknowledged) is not in the class."""
+    t = r["tcb"]
+    if not (r["fd_closed"] and t and not t["reset"] and not t["timed_out"]):
+        return False
+    if t["state"] == "FinWait2":
+        return True
+    return (t["state"] in ("FinWait1", "Closing", "LastAck") and t["fin_seq"] is not None
+            and t["snd_una"] == t["snd_nxt"] and t["snd_nxt"] <= t["fin_seq"] and t["snd_wnd"] == 0)
+
+
 def reclaimed(case, obs, plan):
     out = []
     script, ob = case["script"], obs["obs"]
@@ -166,10 +180,7 @@ def reclaimed(case, obs, plan):
             klass = None
             rs = rows.get(h, {"rows": []})["rows"]
             leftovers = [r for r in rs]
-            if leftovers and all(r["fd_closed"] and r["tcb"] and not r["tcb"]["reset"] and not r["tcb"]["timed_out"]
-                                 and r["tcb"]["state"] in ("FinWait1", "FinWait2", "Closing", "LastAck")
-                                 and (r["tcb"]["state"] == "FinWait2" or r["tcb"]["snd_una"] == r["tcb"]["snd_nxt"])
-                                 for r in leftovers):
+            if leftovers and all(orphan_linger(r) for r in leftovers):
                 klass = "OrphanLinger"
             out.append(("step %d: after both sides dropped everything and %d quiet rounds host %d still holds %s "
                         "(sockets, binding keys, bound fds, 4-tuples); leftovers: %s"
